@@ -8,6 +8,7 @@ import (
 	"fmt"
 	"os"
 	"strconv"
+	"syscall"
 	"time"
 
 	"github.com/cloudwego/thriftgo/parser"
@@ -320,6 +321,7 @@ type lxParseReq struct {
 	Reps     int    `json:"reps"`
 	LimitMs  int    `json:"limit_ms"`
 	BytePass bool   `json:"bytepass"`
+	CPU      bool   `json:"cpu"` // also report the CPU time of the process spent during the parse (single request, VERIF_WORKERS=1)
 }
 
 type lxParseObs struct {
@@ -444,7 +446,17 @@ func init() {
 			if c.BytePass {
 				return lxBytePass(c.ID, text, limit), nil
 			}
+			var ru0 syscall.Rusage
+			if c.CPU {
+				syscall.Getrusage(syscall.RUSAGE_SELF, &ru0)
+			}
 			o := lxParseOnce(text, limit)
+			var cpuNs int64 = -1
+			if c.CPU {
+				var ru1 syscall.Rusage
+				syscall.Getrusage(syscall.RUSAGE_SELF, &ru1)
+				cpuNs = (ru1.Utime.Nano() + ru1.Stime.Nano()) - (ru0.Utime.Nano() + ru0.Stime.Nano())
+			}
 			for r := 1; r < c.Reps && !o.timeout; r++ {
 				o2 := lxParseOnce(text, limit)
 				if o2.ns < o.ns {
@@ -452,7 +464,7 @@ func init() {
 				}
 			}
 			res := map[string]interface{}{"id": c.ID, "ok": o.ok, "err": o.err, "panic": lxShort(o.panicked, 1500),
-				"timeout": o.timeout, "ns": o.ns, "len": len(text)}
+				"timeout": o.timeout, "ns": o.ns, "len": len(text), "cpu_ns": cpuNs}
 			if o.ok {
 				var pj *lxPThrift
 				pp := nd.Guard(func() { pj = lxProject(o.ast) })
